@@ -73,7 +73,7 @@ def run_case(case):
                 relayouts += 1
                 sc.after_step("relayout %s" % layout)
             before = sc.notes_digest()
-            op = rng.choice(["commit", "commit", "partial", "amend", "rebase", "rebase-dr", "cherry", "squash", "ci"])
+            op = rng.choice(["commit", "commit", "partial", "amend", "rebase", "rebase-dr", "cherry", "cherry-cc", "squash", "ci"])
             where = "op %d %s after %s" % (k, op, layout)
             if op == "commit":
                 sc.do_edit(); sc.commit_all("c")
@@ -84,7 +84,7 @@ def run_case(case):
                 sc.do_edit(author=rng.choice(sc.sessions), kinds=["ins", "rep"]); sc.op_amend()
             else:
                 sc.commit_all("pre")
-                {"rebase": sc.op_rebase, "rebase-dr": sc.op_rebase_delete_recreate, "cherry": sc.op_cherry_pick, "squash": sc.op_squash_merge, "ci": sc.op_ci_rewrite}[op]()
+                {"rebase": sc.op_rebase, "rebase-dr": sc.op_rebase_delete_recreate, "cherry": sc.op_cherry_pick, "cherry-cc": sc.op_cherry_pick_concluded_by_commit, "squash": sc.op_squash_merge, "ci": sc.op_ci_rewrite}[op]()
             if sc.notes_digest() != before:
                 written_after += 1
             sc.after_step(where)
